@@ -24,6 +24,7 @@ import (
 	"google.golang.org/grpc/status"
 	"google.golang.org/protobuf/proto"
 	"google.golang.org/protobuf/reflect/protoreflect"
+	"google.golang.org/protobuf/types/descriptorpb"
 	"larking.io/larking"
 
 	"verif/internal/backend"
@@ -57,8 +58,18 @@ const svcPkg = "vf.strm"
 //	Upload(stream Upload) Rsp         POST /upload/{name} body:file
 //	UpEcho(stream Upload) stream Chunk POST /upecho/{name} body:file
 //	Download(Req) stream HttpBody     GET /download/{a}
+//	CSX(stream Chunk) Item            POST /csx body:*     (reply type differs from the request type;
+//	SSX(Chunk) stream Item            POST /ssx body:*      vf.strm.Item has the field layout of vf.Chunk)
+//	BidiX(stream Chunk) stream Item   POST /bidix body:*
 func file() *vschema.File {
-	return &vschema.File{Path: "vf/strm.proto", Pkg: svcPkg, Services: []vschema.Service{{Name: "Strm", Methods: []vschema.Method{
+	item := &descriptorpb.DescriptorProto{Name: proto.String("Item"), Field: []*descriptorpb.FieldDescriptorProto{
+		vschema.StrField("id", 1), itemField("seq", 2, descriptorpb.FieldDescriptorProto_TYPE_INT32), itemField("data", 3, descriptorpb.FieldDescriptorProto_TYPE_BYTES),
+		vschema.StrField("text", 4), vschema.StrField("script", 5), vschema.StrField("tag", 6),
+	}}
+	return &vschema.File{Path: "vf/strm.proto", Pkg: svcPkg, Messages: []*descriptorpb.DescriptorProto{item}, Services: []vschema.Service{{Name: "Strm", Methods: []vschema.Method{
+		{Name: "CSX", In: "vf.Chunk", Out: svcPkg + ".Item", CS: true, Rule: post("/csx", "*")},
+		{Name: "SSX", In: "vf.Chunk", Out: svcPkg + ".Item", SS: true, Rule: post("/ssx", "*")},
+		{Name: "BidiX", In: "vf.Chunk", Out: svcPkg + ".Item", CS: true, SS: true, Rule: post("/bidix", "*")},
 		{Name: "CS", In: "vf.Chunk", Out: "vf.Chunk", CS: true, Rule: with(post("/cs", "*"), wsr("/wscs", "*"))},
 		{Name: "SS", In: "vf.Chunk", Out: "vf.Chunk", SS: true, Rule: with(post("/ss", "*"), get("/ssg/{id}"), wsr("/wsss", "*"))},
 		{Name: "Bidi", In: "vf.Chunk", Out: "vf.Chunk", CS: true, SS: true, Rule: with(post("/bidi", "*"), wsr("/ws", "*"))},
@@ -67,6 +78,22 @@ func file() *vschema.File {
 		{Name: "UpEcho", In: "vf.Upload", Out: "vf.Chunk", CS: true, SS: true, Rule: post("/upecho/{name}", "file")},
 		{Name: "Download", In: "vf.Req", Out: "google.api.HttpBody", SS: true, Rule: get("/download/{a}")},
 	}}}}
+}
+
+func itemField(name string, num int32, t descriptorpb.FieldDescriptorProto_Type) *descriptorpb.FieldDescriptorProto {
+	f := vschema.StrField(name, num)
+	f.Type = t.Enum()
+	return f
+}
+
+// itemDesc is vf.strm.Item, the reply type of the methods whose request and
+// reply message types differ.
+func itemDesc() protoreflect.MessageDescriptor {
+	buildOnce.Do(func() { builtFD, buildErr = file().Build() })
+	if buildErr != nil {
+		panic(buildErr)
+	}
+	return builtFD.Messages().ByName("Item")
 }
 
 func full(method string) string { return "/" + svcPkg + ".Strm/" + method }
